@@ -154,7 +154,7 @@ func (s *state) check(h *rt.H, op string, ns, ident string, max int, f func() st
 			}
 			if strings.HasPrefix(prev, "static/") {
 				// a dynamic chain name equal to one of the FIXED chain names of rule_defs.go
-				sig = "collision-static-chain"
+				sig = "collision-static-chain:" + strings.TrimPrefix(prev, "static/")
 			}
 			// the verbatim identity "_"+<whole 43-char hash> against a shortened name that is SHORTER than the
 			// limit (room for the hash > 43): the `_` marker argument does not cover this (see Props/C37.lean)
@@ -300,6 +300,16 @@ func exec(h *rt.H, s *state, op string) string {
 		out := s.check(h, op, "chains/0", ident, iptables.MaxChainNameLength, func() string { return g.ChainName() }, exempt)
 		s.check(h, op, "chains/1", ident, nftables.MaxChainNameLength, func() string { return g.ChainName() }, exempt)
 		return out
+	case "tempset":
+		fam := ipsets.IPFamilyV4
+		if w[1] == "6" {
+			fam = ipsets.IPFamilyV6
+		}
+		np := unx(w[2])
+		n, _ := strconv.ParseUint(w[3], 10, 64)
+		c := ipsets.NewIPVersionConfig(fam, np, nil, nil)
+		// temporary set names share the ipset namespace with the main ones and must never equal one of them
+		return s.check(h, op, "ipsets/"+w[1]+"/"+w[2], "temp/"+w[3]+"/.", 0, func() string { return c.NameForTempIPSet(uint(n)) }, false)
 	case "ipset":
 		fam := ipsets.IPFamilyV4
 		if w[1] == "6" {
@@ -538,6 +548,17 @@ func genCase(h *rt.H) []string {
 			if len(iface) > 300 {
 				iface = iface[:300]
 			}
+			// interface names that would spell a FIXED chain name under an endpoint prefix (on the unchanged
+			// tree the only such pair is arp/"dispatch"); fixed iteration order keeps the run deterministic
+			if h.Intn(6) == 0 {
+				for _, c := range staticChains {
+					for _, k2 := range []string{"arp", "fh", "fhfw", "fw", "sm", "th", "thfw", "tw"} {
+						if p2 := epPfx[k2]; strings.HasPrefix(c, p2) && len(c) > len(p2) {
+							kind, iface = k2, c[len(p2):]
+						}
+					}
+				}
+			}
 			add(fmt.Sprintf("ep %s %s %d", kind, xs(iface), m), iface)
 			if len(iface) > 200 && h.Intn(2) == 0 {
 				add(fmt.Sprintf("ep %s %s %d", kind, xs("_"+h64(iface)), m), "_"+h64(iface))
@@ -561,6 +582,10 @@ func genCase(h *rt.H) []string {
 			np := rt.Pick(h, []string{"cali", "cali", "c", "felix-ipsets-long-prefix-", "a-very-long-ip-set-name-prefix-over-31"})
 			id := rt.Pick(h, []string{"s:" + randStr(h, 27), "s:" + randStr(h, 27), randStr(h, 3), randStr(h, 24), randStr(h, 25), randStr(h, 26), ""})
 			ops = append(ops, fmt.Sprintf("ipset %s %s %s", fam, xs(np), xs(id)))
+			if h.Intn(2) == 0 { // temporary set names, and main ids that try to spell one ("t0", "0t1", digits)
+				ops = append(ops, fmt.Sprintf("tempset %s %s %d", fam, xs(np), rt.Pick(h, []uint64{0, 1, 9, 10, 123, 4294967295})))
+				ops = append(ops, fmt.Sprintf("ipset %s %s %s", fam, xs(np), xs(rt.Pick(h, []string{"0", "1", "t0", "t1", "10"}))))
+			}
 			if h.Intn(2) == 0 { // ids equal up to the truncation point / differing just before it
 				ops = append(ops, fmt.Sprintf("ipset %s %s %s", fam, xs(np), xs(id+"tail")))
 				if len(id) > 2 {
@@ -714,7 +739,7 @@ func main() {
 				h.Count("op:" + k)
 				if out == "panic" {
 					h.Count("out:panic")
-				} else if k == "h3" || k == "pid" || k == "grp2" {
+				} else if k == "h3" || k == "pid" || k == "grp2" || k == "tempset" {
 					// identity ops: nothing to classify
 				} else if k == "pol2" {
 					h.Count("out:pol2")
